@@ -61,13 +61,16 @@ func doReplay(path string) int {
 	scripts := loadCorpusFile(path)
 	rc := 0
 	for _, s := range scripts {
-		impl := runImpl(s)
+		impl := runImpl(&s)
 		model, err := runModel([]Script{s})
 		if err != nil {
 			fmt.Println("driver error:", err)
 			return 3
 		}
 		for i, l := range s.Lines {
+			if s.ModelLines[i] != l {
+				l = l + "   [model: " + s.ModelLines[i] + "]"
+			}
 			fmt.Printf("op    %s\nimpl  %s\nmodel %s\n", l, impl[i], model[0][i])
 		}
 		if k := classify(impl, model[0]); k != "" {
